@@ -13,7 +13,7 @@ RULE = ("seeded gen_coords runs with generated build files: in/out sphere, cylin
         "independent predicates; non-trivial = some restraint selects a generated residue; distinct = distinct event-log digests")
 ASSUMPTIONS = wa.ASSUMPTIONS + ["geometric 'in' regions are generated large enough and 'out' regions small enough to be satisfiable"]
 REAL_VS_STUB = wa.REAL_VS_STUB
-PROBES = wa.PROBES + ["ring_with_side_chain", "persistence_with_distance_restraint", "resid_restart_inside_molecule", "distance_restraint_beyond_half_box", "restraint_selects_generated_residue", "direction_restricted_step", "direction_restricted_step_wrapped",
+PROBES = wa.PROBES + ["earlier_call_same_build_file_path", "ring_with_side_chain", "persistence_with_distance_restraint", "resid_restart_inside_molecule", "distance_restraint_beyond_half_box", "restraint_selects_generated_residue", "direction_restricted_step", "direction_restricted_step_wrapped",
                       "distance_restraint_checked", "persistence_sampled", "cycle_checked"]
 PROFILE = {"shapes": ["linear", "linear", "linear", "ring", "ring", "comb", "single"], "maxres": 10, "n_moltypes": (1, 2),
            "n_entries": (1, 3), "max_molecules": 6, "max_count": 3, "box_modes": ["cubic", "noncubic"],
@@ -148,6 +148,15 @@ def gen_job(verif_seed, tier, index):
                     "items": [{"kind": "dist", "a": 1, "b": b, "d": round(0.45 * (b - 1) * sizes, 3), "tol": 0.25}]}]
                 job["ring_with_distance_restraint"] = True
                 break
+    if mode == "geom" and job.get("build_spec") and g.random() < 0.25:
+        # an earlier gen_coords call in the process read other restraints from the same build-file path
+        alt = bldgen.gen_build_spec(g, spec, box, ["geom"], est_size=sizes)
+        for blk in alt:
+            for it in blk["items"]:
+                if it.get("inout") == "out":
+                    it["inout"], it["params"] = "in", [round(0.45 * min(box), 3)] * len(it["params"])
+                it["center"] = [round(box[d] * g.uniform(0.45, 0.55), 3) for d in range(3)]
+        job["pre_build_text"] = bldgen.render(alt)
     if mode in ("geom", "rw") and g.random() < 0.3:
         jobgen.add_list_order(job, g)
     if g.random() < 0.25 and mode in ("geom", "rw", "cycle") and not job.get("ring_with_distance_restraint"):
